@@ -1,6 +1,8 @@
 package main
 
 import (
+	"golang.org/x/tools/go/ssa"
+	"fmt"
 	"go/token"
 	"strings"
 )
@@ -13,7 +15,7 @@ func init() {
 		Run: runC01,
 		Explanation: "The acknowledgement skeleton: an acknowledgement (SyncAndWait, Store.SyncDB, the sync HTTP handler, a clean Close) can only be produced after every stage returned nil, and no stage error is dropped. " +
 			"Decided by a path-sensitive fail-stop walk (nil-ness facts over SSA values and result/field cells) for every error-returning call in the cone of the acknowledgement entry points, " +
-			"plus value provenance of the LTX header/page copy loops and the ordering skeleton of the checkpoint protocol.",
+			"plus value provenance of the LTX header/page copy loops and the ordering skeleton of the checkpoint protocol. R9: a sync bounded by MaxSyncWALBytes is issued only from the catch-up loop of DB.Sync; every other caller (Close's final sync, checkpoints) passes 0 or forwards its own bound.",
 		NotDecided:  "page-level byte equality; correctness of the WAL-continuity decision (C04); SQLite semantics",
 		Assumptions: []string{"SQLite WAL semantics; ltx v0.5.2 encoder/decoder"},
 	})
@@ -42,6 +44,50 @@ func runC01(c *Ctx) {
 	c04DefaultDeny(c)
 	c04Helpers(c)
 	c01Ack(c)
+	c01Bound(c)
+}
+
+// c01Bound (R9): a sync bounded by MaxSyncWALBytes copies one chunk and reports
+// `limited`; only the catch-up loop of DB.Sync may pass a bound.  Every other
+// caller (Close's final sync, checkpoints) acknowledges after a single call
+// and must therefore sync without a bound (0) or forward its own parameter.
+func c01Bound(c *Ctx) {
+	const rule = "R9-bounded-sync-is-looped"
+	n := 0
+	for _, fn := range c.P.ProdFuncs() {
+		for _, call := range calls(fn) {
+			callee := call.Common().StaticCallee()
+			i := refParamIndex(callee, "maxSyncWALBytes")
+			if i < 0 || i >= len(call.Common().Args) || !c.P.InP(callee) {
+				continue
+			}
+			n++
+			a := call.Common().Args[i]
+			construct := fmt.Sprintf("%s -> %s: chunk bound", fnName(fn), calleeName(call))
+			if k, ok := constInt(a); ok && k == 0 {
+				c.ok(rule, construct, c.pos(call), "unbounded (0)")
+				continue
+			}
+			fwd := false
+			for _, o := range origins(a) {
+				if p, ok := o.(*ssa.Parameter); ok && p.Parent() == fn && refParamName(p) == "maxSyncWALBytes" {
+					fwd = true
+				}
+			}
+			if fwd && len(origins(a)) <= 2 {
+				c.ok(rule, construct, c.pos(call), "forwards the caller's own bound")
+				continue
+			}
+			root := fn
+			for root.Parent() != nil {
+				root = root.Parent()
+			}
+			inLoop := innermostLoopOf(naturalLoops(fn), call.Block()) != nil
+			c.check(fnName(root) == "(*ls.DB).Sync" && inLoop, rule, construct, c.pos(call), "the catch-up loop of DB.Sync (C13-R4 checks that it continues while chunks are limited)",
+				"a bounded sync outside the catch-up loop returns after one chunk: the caller acknowledges although committed WAL frames beyond the bound were not copied")
+		}
+	}
+	c.floor(rule, n, 4, "calls passing a sync chunk bound")
 }
 
 // ackExceptions: the frozen table of deliberate tolerances on acknowledgement
